@@ -258,12 +258,15 @@ class UndirectedMultigraph : private LabeledUndirectedGraph<EdgeMultiplicity> {
                     ++j;
                 }
         }
+        for (VertexIndex i : *this)
+            BaseClass::edgeLabels.erase(orderedEdge(vertex, i));
     }
 
     /// @copydoc DirectedMultigraph::clearEdges
     void clearEdges() {
         for (VertexIndex i : *this)
             adjacencyList[i].clear();
+        edgeLabels.clear();
         edgeNumber = 0;
         totalEdgeNumber = 0;
     }
